@@ -202,6 +202,8 @@ def _len(eng, x):
         f, _ = x.cls.lookup("__len__")
         if f is not None:
             return eng.call(Bound(f, x), [], {})
+    if eng.is_native_concrete(x):
+        return eng._concrete(lambda: len(x))
     raise PyRaise(TypeError, ("len",))
 
 
